@@ -35,6 +35,25 @@ def backwardSpec (s n : Nat) : Option Nat :=
 def stepsSpec (s e : Nat) : Option Nat :=
   if rank s ≤ rank e then some (rank e - rank s) else none
 
+/-- Stepping a page of size `sz` forward by `n` pages. -/
+def pageForwardSpec (sz p n : Nat) : Option Nat :=
+  if rank p + n * sz < 2^48 then some (unrank (rank p + n * sz)) else none
+
+/-- Stepping a page of size `sz` backward by `n` pages. -/
+def pageBackwardSpec (sz p n : Nat) : Option Nat :=
+  if n * sz ≤ rank p then some (unrank (rank p - n * sz)) else none
+
+/-- `Step::steps_between` result pair (lower bound, exact upper bound) in units of `sz`. -/
+def stepsPairSpec (sz s e : Nat) : Nat × Option Nat :=
+  match stepsSpec s e with
+  | some d => (d / sz, some (d / sz))
+  | none => (0, none)
+
+/-- Table-index stepping stays within `0..512`. -/
+def indexForwardSpec (i n : Nat) : Option Nat := if i + n < 512 then some (i + n) else none
+def indexBackwardSpec (i n : Nat) : Option Nat := if n ≤ i then some (i - n) else none
+def indexStepsSpec (s e : Nat) : Nat × Option Nat := if s ≤ e then (e - s, some (e - s)) else (0, none)
+
 /-- Both in the lower half or both in the upper half. -/
 def sameHalf (a b : Nat) : Prop := (a < 2^47 ∧ b < 2^47) ∨ (2^64 - 2^47 ≤ a ∧ 2^64 - 2^47 ≤ b)
 
